@@ -89,6 +89,11 @@ func init() {
 				}
 			}
 		}
+		for _, cs := range deepCases(c) {
+			if c.Next() {
+				c12Tree(c, cs)
+			}
+		}
 		for _, src := range corpus.Specials() {
 			if c.Next() {
 				c12Tree(c, mkCase(src, drive.V74, "special"))
